@@ -1,6 +1,7 @@
 """Shared context, findings and the check runner."""
 from __future__ import annotations
 
+import ast
 import hashlib
 import json
 import os
@@ -113,6 +114,7 @@ class Ctx:
         _check_event_model(self.program)
         self.all_sites: List[Site] = find_sites(self.program)
         self.unresolved = {}     # handler qualname -> first call of a function value that could not be resolved
+        self.extensions = {}     # function -> parameters the pinned tree did not have, analysed at their default only
         self.scope = None        # set of module paths: rules that quantify over "all sites" then only see these modules
         self._cache = {}
         self.total_paths = 0
@@ -323,8 +325,40 @@ class Ctx:
             for n, vals in domains(found).items():
                 if n not in space and vals:
                     space[n] = vals
+            space = self._extensions_at_default(spec, space)
             self._cache[key] = space
         return self._cache[key]
+
+    def _extensions_at_default(self, spec, space):
+        """The properties speak about the API of the pinned tree.  A parameter that a function of that tree did not have (rxsa/known_params.py)
+        and that defaults to None / True / False is an extension: callers who do not use it get the default, and what the operator does
+        when it is used is outside every quantifier.  The handlers are analysed with such a parameter at its default only (noted in
+        self.extensions for the evidence)."""
+        from .known_params import KNOWN_PARAMS
+        from .model import _param_owner
+        out = dict(space)
+        for n in list(space):
+            sc = _param_owner(spec.module, spec.fn, n)
+            if sc is None or not isinstance(sc.node, ast.FunctionDef):
+                continue
+            known = KNOWN_PARAMS.get("%s::%s" % (spec.module.relpath, sc.qualname))
+            if known is None or n in known:
+                continue
+            a = sc.node.args
+            pos = a.posonlyargs + a.args
+            dflt = None
+            if n in [x.arg for x in pos]:
+                k = [x.arg for x in pos].index(n) - (len(pos) - len(a.defaults))
+                dflt = a.defaults[k] if k >= 0 else None
+            elif n in [x.arg for x in a.kwonlyargs]:
+                dflt = a.kw_defaults[[x.arg for x in a.kwonlyargs].index(n)]
+            if not isinstance(dflt, ast.Constant) or not (dflt.value is None or isinstance(dflt.value, bool)):
+                continue
+            v = "None" if dflt.value is None else str(dflt.value)
+            if v in space[n]:
+                out[n] = [v]
+                self.extensions.setdefault("%s::%s" % (spec.module.relpath, sc.qualname), set()).add("%s=%s" % (n, v))
+        return out
 
     def paths(self, spec: HandlerSpec, kind, cfg: Dict[str, str], max_iter=None) -> List[Path]:
         mi = max_iter or self.max_iter
